@@ -474,7 +474,14 @@ class DynamicBayesianNetwork(DAG):
             ):
                 raise ValueError("CPD defined on variable not in the model", cpd)
 
-        self.cpds.extend(cpds)
+        # A node has one CPD: a new CPD on the same variable replaces the previous one.
+        for cpd in cpds:
+            for index, prev_cpd in enumerate(self.cpds):
+                if prev_cpd.variable == cpd.variable:
+                    self.cpds[index] = cpd
+                    break
+            else:
+                self.cpds.append(cpd)
 
     def get_cpds(self, node=None, time_slice=None):
         """
